@@ -194,7 +194,7 @@ func run(id string, c cfg, tier string, seed int64, replay string) int {
 	// merge
 	ev := map[string]any{}
 	cov := map[string]any{}
-	var evals, ntLocal int64
+	var evals, ntLocal, bulkDistinct int64
 	classes := map[string]int64{}
 	subs := map[string]int64{}
 	exh := map[string]bool{}
@@ -213,6 +213,7 @@ func run(id string, c cfg, tier string, seed int64, replay string) int {
 			continue
 		}
 		evals += p.Evaluations
+		bulkDistinct += p.BulkDistinct
 		ntLocal += p.NonTrivial
 		for k, v := range p.Classes {
 			classes[k] += v
@@ -287,7 +288,10 @@ func run(id string, c cfg, tier string, seed int64, replay string) int {
 		rule += " (distinct count is a lower bound: the per-process hash set was capped)"
 	}
 	cov["evaluations"] = evals
-	cov["distinct_nontrivial"] = int64(len(hashes))
+	distinct := int64(len(hashes)) + bulkDistinct
+	cov["distinct_nontrivial"] = distinct
+	cov["distinct_by_hash"] = int64(len(hashes))
+	cov["distinct_by_enumeration"] = bulkDistinct
 	cov["nontrivial_evaluations"] = ntLocal
 	cov["rule"] = rule
 	cov["samples"] = samples
@@ -353,7 +357,7 @@ func run(id string, c cfg, tier string, seed int64, replay string) int {
 		fmt.Printf("INCONCLUSIVE property=%s %s\n", id, m)
 	}
 	fmt.Printf("%s %s seed=%d: evaluations=%d distinct_nontrivial=%d violations=%d wall=%.1fs\n",
-		id, tier, seed, evals, len(hashes), len(viols), time.Since(start).Seconds())
+		id, tier, seed, evals, distinct, len(viols), time.Since(start).Seconds())
 	if len(viols) > 0 {
 		return 1
 	}
